@@ -61,6 +61,27 @@ def gen_straddle_case(rnd):
     return f, gen_query(rnd, f)
 
 
+def gen_extension_case(rnd):
+    """targeted family: an EXTENSION table -- a model keyed by its own foreign key (shipments keyed by order id), declared many_to_one on the
+    extension side, with parent rows that have no extension row and extension rows whose parent is missing; metrics of both models, dimensions
+    of neither or of one side only"""
+    f = jg.gen_forest(rnd, nmodels=2, allow_m2m=False)
+    parent, ext = f["models"][0], f["models"][1]
+    parent["composite"], ext["composite"] = False, False
+    parent.pop("pk", None)
+    parent["rels"], ext["rels"] = [], [dict(name=parent["name"], type="many_to_one", foreign_key="fk_a")]
+    ext["pk"] = "fk_a"
+    parent["rows"] = [[r + 1, "k%d" % (r + 1), rnd.choice([None, 1, 2, 5, 10]), rnd.choice([None, 0, 1, 2]), rnd.choice([None, "a", "a", "b"]), None, None] for r in range(rnd.choice([3, 4, 6]))]
+    keys = rnd.sample(range(1, len(parent["rows"]) + 1), rnd.randint(1, len(parent["rows"]) - 1)) + rnd.sample([97, 98, 99], rnd.randint(0, 2))
+    ext["rows"] = [[i + 1, "k%d" % (i + 1), rnd.choice([None, 1, 2, 5, 10]), rnd.choice([None, 0, 1, 2]), rnd.choice([None, "a", "b", "b"]), k, "k%d" % k] for i, k in enumerate(keys)]
+    f["links"] = [(1, 0, "m2o", False)]
+    dims = rnd.choice([[], [], [(parent["name"], jg.jcol("s0"))], [(ext["name"], jg.jcol("s0"))]])
+    mets = [(parent["name"], rnd.choice(["sum", "count", "max"]), jg.jcol("c0"), []), (ext["name"], rnd.choice(["sum", "count", "min"]), jg.jcol("c0"), [])]
+    if rnd.random() < 0.5:
+        mets.reverse()
+    return f, dict(dims=dims, mets=mets, filters=[])
+
+
 def run_impl(f, q, metric_idx=None, extra_filters=(), **kw):
     """joint query (metric_idx None) or the query with only metric number metric_idx; returns {colname: ...} rows as dicts"""
     dbm, mbm, drefs, mrefs = c02.field_names(q)
@@ -192,6 +213,7 @@ def run(c):
         f = jg.gen_forest(c.rng, nmodels=c.rng.randint(2, 4))
         cases.append((f, gen_query(c.rng, f)))
     cases += [gen_straddle_case(c.rng) for _ in range(max(8, n // 8))]
+    cases += [gen_extension_case(c.rng) for _ in range(max(8, n // 10))]
     cf = jg.corpus_forest()
     cases[:0] = [
         (cf, dict(dims=[], mets=[("ma", "count", None, []), ("mb", "sum", jg.jcol("c0"), [])], filters=[("mb", ("cmp", "=", jg.jcol("s0"), sg.lit("a")))])),   # K1
